@@ -6,6 +6,7 @@ M2: ExprGen.tla (TLC) enumerates every context P(..Q(..)..) of the textbook gram
 M3: Trace_Operands.tla: every literal occurs in the speech at least as often as in the expression (digit boundaries respected)."""
 import json
 import random
+import re
 import time
 
 import common as C
@@ -71,7 +72,11 @@ def run(tier):
             ops = [{"op": "set_rules_dir", "dir": "$RULES", "setup": True}, {"op": "set_pref", "name": "Language", "value": lang, "setup": True},
                    {"op": "set_pref", "name": "SpeechStyle", "value": style, "setup": True}, {"op": "set_pref", "name": "Verbosity", "value": verb, "setup": True},
                    {"op": "events_on", "setup": True}]
-            meta = [None] * 5
+            # "unaffected by the optional-word and pause post-processing": each engine has a pause post-processing of its own
+            # (merge_pauses_none / _ssml / _sapi5); sessions rotate through them and the engine's tags are taken out before judging
+            engine = ["none", "SSML", "SAPI5"][len(scripts) % 3]
+            ops.insert(4, {"op": "set_pref", "name": "TTS", "value": engine, "setup": True})
+            meta = [None] * 6
             for ti in chunk:
                 xml, lits = exprgen.concretise(trees[ti], marks[lang])
                 ops.append({"op": "set_mathml", "mathml": xml})
@@ -80,7 +85,7 @@ def run(tier):
                 meta.append((ti, lits, xml))
                 ops.append({"op": "drain"})
                 meta.append(None)
-            scripts.append({"id": f"{lang}/{style}/{verb}/{b}", "ops": ops, "meta": meta, "cfg": c, "isolate_on_panic": True})
+            scripts.append({"id": f"{lang}/{style}/{verb}/{b}", "ops": ops, "meta": meta, "cfg": c, "engine": engine, "isolate_on_panic": True})
     results = C.run_mcv([{"id": s["id"], "ops": s["ops"], "isolate_on_panic": True} for s in scripts], wd, timeout_ms=60000)
     events, back = [], []
     for si, (s, r) in enumerate(zip(scripts, results)):
@@ -92,6 +97,8 @@ def run(tier):
             for v in lits:
                 counts[v] = counts.get(v, 0) + 1
             out = rr["v"] if rr["r"] == "ok" else ""
+            if s["engine"] != "none":
+                out = re.sub(r"<[^>]*>", " ", out)
             events.append({"kind": "speech", "res": rr["r"] if r["results"][oi - 1]["r"] == "ok" else "set_mathml-" + r["results"][oi - 1]["r"],
                            "out": C.cps(out), "lits": [{"runs": [C.cps(v)], "n": n} for v, n in counts.items()], "boundary": 1})
             back.append((si, oi))
@@ -112,7 +119,7 @@ def run(tier):
         shape = json.dumps(trees[ti], sort_keys=True)
         text = f"{reason}: {s['cfg'][0]}/{s['cfg'][1]}/{s['cfg'][2]}: literals {missing} of {xml[:300]} not in speech {out[:300]!r}"
         verdict.reject(f"{reason}|{s['cfg'][0]}|{s['cfg'][1]}|{s['cfg'][2]}|{S.fp(shape)}", text,
-                       {"script": s["ops"][:5] + [{"op": "set_mathml", "mathml": xml}, {"op": "speech"}]},
+                       {"script": s["ops"][:6] + [{"op": "set_mathml", "mathml": xml}, {"op": "speech"}]},
                        text=json.dumps({"reason": reason, "lang": s["cfg"][0], "style": s["cfg"][1], "verbosity": s["cfg"][2], "lost_by_is_repetitive": by_rep, "tree": trees[ti], "speech": out[:300], "tail": out[-400:] if rr["r"] != "ok" else ""}, ensure_ascii=False))
     # (a literal spoken MORE often than it occurs - ClearSpeak's 'the interval from a to b, not including a or b' - is counted in
     #  the evidence, not reported: the statement's concern is operands that are not voiced)
@@ -120,7 +127,7 @@ def run(tier):
     C.write_evidence(PID, tier, "model_checking", {
         "states": gen["states"], "transitions": gen["transitions"],
         "traces_validated_against_impl": len(events),
-        "samples": [{"cfg": scripts[0]["cfg"], "mathml": scripts[0]["meta"][6][2], "speech": results[0]["results"][6]["v"]}],
+        "samples": [{"cfg": scripts[0]["cfg"], "mathml": scripts[0]["meta"][7][2], "speech": results[0]["results"][7]["v"]}],
         "evaluations": len(events), "distinct_nontrivial": len({(scripts[si]["cfg"], scripts[si]["meta"][oi][0]) for si, oi in back}),
         "rule": "trees = every context P(..Q(..)..) of 31 productions of the textbook grammar (ExprGen.tla, exhaustive to depth 2) plus simulated "
                 "depth-4 nestings, a distinct decimal literal at every operand position written with the language's decimal mark; configurations = "
